@@ -33,12 +33,20 @@ RW = {
 }
 
 
-def hop(fmt, cs, trail):
+def hop(fmt, cs, trail, pool=None):
+    """One conversion hop.  With a pool, one writer and one reader object per format serve
+    the whole chain (a long-lived converter), otherwise fresh objects are used."""
     w, r = RW[fmt]
+    if pool is not None:
+        if fmt not in pool:
+            pool[fmt] = (w(), r())
+        wo, ro = pool[fmt]
+    else:
+        wo, ro = w(), r()
     with must(f"{w.__name__}.write ({' > '.join(trail)})"):
-        doc = w().write(cs)
+        doc = wo.write(cs)
     with must(f"{r.__name__}.read of own output ({' > '.join(trail)})"):
-        return r().read(doc), doc
+        return ro.read(doc), doc
 
 
 def snap(cs):
@@ -70,7 +78,7 @@ def _compare(ref, got, res, sami_seen, trail, doc, positional):
                         lambda: f"{' > '.join(trail)}: cue {i} end {ge}, was {re_} (resolution {res} us)")
 
 
-def run_chain(start_cs, ref, chain, positional, passes=2):
+def run_chain(start_cs, ref, chain, positional, passes=2, pool=None):
     """Apply the chain `passes` times; after each hop compare with the reference snapshot."""
     cs = start_cs
     res = 1000
@@ -84,7 +92,7 @@ def run_chain(start_cs, ref, chain, positional, passes=2):
                 res = 40000
             if fmt == "sami":
                 sami_seen = True
-            cs, doc = hop(fmt, cs, trail)
+            cs, doc = hop(fmt, cs, trail, pool)
             got = snap(cs)
             _compare(ref, got, res, sami_seen, trail, doc, positional)
         if p == 0:
@@ -147,12 +155,16 @@ def chains_strategy(tier):
     return st.fixed_dictionaries({
         "set": _set(),
         "chain": st.lists(st.sampled_from(FORMATS), min_size=3, max_size=6),
+        "pooled": st.booleans(),
     })
 
 
 def check_chain(case, rec):
     cs0 = model.to_pycaption(case["set"])
-    run_chain(cs0, snap(cs0), case["chain"], True, passes=2)
+    pool = {} if case.get("pooled") else None
+    run_chain(cs0, snap(cs0), case["chain"], True, passes=2, pool=pool)
+    if pool is not None:
+        rec.label("pooled-objects")
     n = len(case["set"]["langs"][0]["cues"])
     rec.nontrivial(n >= 2 and len(set(case["chain"])) >= 2)
     rec.label("len:%d" % len(case["chain"]))
@@ -162,12 +174,14 @@ def multi_strategy(tier):
     return st.fixed_dictionaries({
         "set": _set(multi=True),
         "chain": st.lists(st.sampled_from(["dfxp", "sami"]), min_size=1, max_size=4),
+        "pooled": st.booleans(),
     })
 
 
 def check_multi(case, rec):
     cs0 = model.to_pycaption(case["set"])
-    run_chain(cs0, snap(cs0), case["chain"], False, passes=2)
+    pool = {} if case.get("pooled") else None
+    run_chain(cs0, snap(cs0), case["chain"], False, passes=2, pool=pool)
     rec.nontrivial(len(set(case["chain"])) >= 2)
     rec.label("multi:" + ">".join(case["chain"][:2]))
 
